@@ -217,16 +217,24 @@ def run(ctx):
     for lk in range(n):
         text, entries, errors, options = ledgers.gen_ledger(rng, ntxn=rng.range(6, 18))
         conn = ledgers.connect(entries, errors, options)
+        # PRINT first (cheap); it also leaves its traces, if any, on the connection the other statements then use
+        print_layer(ctx, lk, conn, entries, options)
+        k = 0
         for f in FUNCS:
             fx = (lambda x, f=f: '%s(%s)' % (f, x)) if f else (lambda x: x)
             at = ' AT %s' % f if f else ''
             for frm in FROMS:
-                for where in WHERES:
+                k += 1
+                # the quick tier walks the matrix diagonally (every summary function x every FROM clause, with one WHERE
+                # condition and three account patterns each, rotating); the thorough tier takes all of it
+                wheres = WHERES if ctx.thorough() else [WHERES[k % len(WHERES)]]
+                patterns = PATTERNS if ctx.thorough() else [PATTERNS[(k + j * 4) % len(PATTERNS)] for j in range(3)]
+                for where in wheres:
                     stmt = 'BALANCES%s%s%s' % (at, ' FROM ' + frm if frm else '', ' WHERE ' + where if where else '')
                     select = ('SELECT account, sum(%s) %s%s GROUP BY account, account_sortkey(account) ORDER BY account_sortkey(account)'
                               % (fx('position'), 'FROM ' + frm if frm else '', ' WHERE ' + where if where else ''))
                     compare(ctx, lk, conn, stmt, select, 'balances')
-                for pat in PATTERNS:
+                for pat in patterns:
                     stmt = 'JOURNAL%s%s%s' % (" '%s'" % pat if pat else '', at, ' FROM ' + frm if frm else '')
                     select = ('SELECT date, flag, maxwidth(payee, 48), maxwidth(narration, 80), account, %s, %s %s%s'
                               % (fx('position'), fx('balance'), 'FROM ' + frm if frm else '', " WHERE account ~ '%s'" % pat if pat else ''))
@@ -244,7 +252,6 @@ def run(ctx):
                      'SELECT account, sum(cost(position)) %s GROUP BY account, account_sortkey(account) ORDER BY account_sortkey(account)'
                      % ('FROM ' + frm if frm else ''))):
                 compare(ctx, lk, conn, stmt, select, 'reordered')
-        print_layer(ctx, lk, conn, entries, options)
 
 
 def replay(ctx, body):
